@@ -140,6 +140,10 @@ type containerStore interface {
 
 	createGraph() *dot.Graph
 
+	// Reports an error if the dependency graph, as seen from this store,
+	// has a cycle. The verdict is cached until the graph changes.
+	verifyAcyclic() error
+
 	// Returns invokerFn function to use when calling arguments.
 	invoker() invokerFn
 
